@@ -163,7 +163,7 @@ theorem lookup_insert_self {κ} [BEq κ] [LawfulBEq κ] (m : List (κ × Nat)) (
     lookup (insert m k v) k = some v := by
   simp [lookup, insert]
 
-theorem lookup_insert_ne {κ} [BEq κ] [LawfulBEq κ] (m : List (κ × Nat)) (k k' : κ) (v : Nat) (h : k' ≠ k) :
+theorem cr_lookup_insert_ne {κ} [BEq κ] [LawfulBEq κ] (m : List (κ × Nat)) (k k' : κ) (v : Nat) (h : k' ≠ k) :
     lookup (insert m k v) k' = lookup m k' := by
   unfold lookup insert
   have hk : (k == k') = false := by simpa using (Ne.symm h)
@@ -225,7 +225,7 @@ structure WF (P : Project) (g : G) : Prop where
   honest : ∀ t ∈ P.tasks, ∀ k, t.beh ≠ .omits k
   noPersist : ∀ t ∈ P.tasks, t.persist = false
 
-theorem stateOf_nv (P : Project) (w : World) (n : Nat) : stateOf P w (nv n) = lookup w.fs n := by
+theorem cr_stateOf_nv (P : Project) (w : World) (n : Nat) : stateOf P w (nv n) = lookup w.fs n := by
   unfold stateOf nv isTaskV
   have h1 : ((2 * n + 1) % 2 == 0) = false := by
     have : (2 * n + 1) % 2 = 1 := by omega
@@ -271,12 +271,12 @@ theorem inv_of_rc {F : BodyFn} {P : Project} {g : G} (hwf : WF P g) (w : World) 
     simp at this
     rw [this.2]
     exact List.getElem_mem _
-  rw [row_eq _ (hwf.prods t ht _ hp), stateOf_nv] at hrow
+  rw [row_eq _ (hwf.prods t ht _ hp), cr_stateOf_nv] at hrow
   rw [hrow, row_eq _ (tv_mem_neighbours g t.id), stateOf_tv P w t.id t (hwf.find t ht)]
   congr 2
   apply List.map_congr_left
   intro d hd
-  rw [row_eq _ (hwf.deps t ht d hd), stateOf_nv]
+  rw [row_eq _ (hwf.deps t ht d hd), cr_stateOf_nv]
 
 end Engine
 end Pytask
@@ -317,7 +317,7 @@ theorem applySteps_onlyRows_other {t : Nat} {st : List Step} (h : OnlyRowsOf t s
     obtain ⟨v, y, rfl⟩ := h s (by simp)
     rw [applySteps_cons, ih (fun s hs => h s (List.mem_cons_of_mem _ hs))]
     simp only [applyStep]
-    apply lookup_insert_ne
+    apply cr_lookup_insert_ne
     intro heq
     exact tv_ne_of_ne hu (by simpa using congrArg Prod.fst heq)
 
@@ -411,12 +411,12 @@ theorem inv_after_rows {F : BodyFn} {P : Project} {g : G} (hwf : WF P g) (w : Wo
       simp at this
       rw [this.2]
       exact List.getElem_mem _
-    rw [row_eq _ (hwf.prods u hu _ hp), stateOf_nv] at hrow
+    rw [row_eq _ (hwf.prods u hu _ hp), cr_stateOf_nv] at hrow
     rw [hrow, row_eq _ (tv_mem_neighbours g u.id), stateOf_tv P _ u.id u (hwf.find u hu)]
     congr 2
     apply List.map_congr_left
     intro d hd
-    rw [row_eq _ (hwf.deps u hu d hd), stateOf_nv]
+    rw [row_eq _ (hwf.deps u hu d hd), cr_stateOf_nv]
 
 end Engine
 end Pytask
@@ -435,7 +435,7 @@ theorem lookup_writeAll_other (c : Nat → Nat) (l : List (Nat × Nat)) (fs : FS
     rw [ih _ (fun pi h => hq pi (List.mem_cons_of_mem _ h))]
     have : (some a.2 == (none : Option Nat)) = false := rfl
     simp only [this, Bool.false_eq_true, if_false]
-    exact lookup_insert_ne _ _ _ _ (Ne.symm (hq a (by simp)))
+    exact cr_lookup_insert_ne _ _ _ _ (Ne.symm (hq a (by simp)))
 
 theorem lookup_writeAll_mem (c : Nat → Nat) (l : List (Nat × Nat)) (fs : FS) (hnd : (l.map (·.1)).Nodup)
     (pi : Nat × Nat) (hpi : pi ∈ l) :
@@ -505,7 +505,7 @@ end Pytask
 namespace Pytask
 namespace Engine
 
-theorem updateStates_fs (P : Project) (g : G) (w : World) (t : Nat) (vs : List Nat) : (updateStates P g w t vs).1.fs = w.fs := by
+theorem cr_updateStates_fs (P : Project) (g : G) (w : World) (t : Nat) (vs : List Nat) : (updateStates P g w t vs).1.fs = w.fs := by
   rw [← applySteps_rows]; exact applySteps_onlyRows_fs (rowSteps_onlyRows P w t vs) w
 
 theorem updateStates_other (P : Project) (g : G) (w : World) (t : Nat) (vs : List Nat) (u x : Nat) (hu : u ≠ t) :
@@ -513,7 +513,7 @@ theorem updateStates_other (P : Project) (g : G) (w : World) (t : Nat) (vs : Lis
   rw [← applySteps_rows]; exact applySteps_onlyRows_other (rowSteps_onlyRows P w t vs) w u x hu
 
 /-- A row written by a completed `update_states_in_database` holds the state the node had then. -/
-theorem updateStates_ok (P : Project) (g : G) (t : Nat) (vs : List Nat) (w : World)
+theorem cr_updateStates_ok (P : Project) (g : G) (t : Nat) (vs : List Nat) (w : World)
     (hok : (updateStates P g w t vs).2 = true) :
     (∀ v ∈ vs, ∃ h, stateOf P w v = some h ∧ lookup (updateStates P g w t vs).1.db (tv t, v) = some h) ∧
     (∀ x, x ∉ vs → lookup (updateStates P g w t vs).1.db (tv t, x) = lookup w.db (tv t, x)) := by
@@ -539,7 +539,7 @@ theorem updateStates_ok (P : Project) (g : G) (t : Nat) (vs : List Nat) (w : Wor
       · intro x hx
         simp only [List.mem_cons, not_or] at hx
         rw [ih'.2 x hx.2]
-        apply lookup_insert_ne
+        apply cr_lookup_insert_ne
         intro heq
         exact hx.1 (by simpa using congrArg Prod.snd heq)
 
@@ -603,7 +603,7 @@ theorem rc_protocol {F : BodyFn} {P : Project} {g : G} (hwf : WF P g) (cfg : Cfg
     · left; simp
     · right
       simp only [if_true]
-      obtain ⟨hrows, _⟩ := updateStates_ok P g spec.id (neighbours g spec.id) s1.w hok
+      obtain ⟨hrows, _⟩ := cr_updateStates_ok P g spec.id (neighbours g spec.id) s1.w hok
       intro u hu
       by_cases heq : u = spec
       · subst heq
@@ -613,12 +613,12 @@ theorem rc_protocol {F : BodyFn} {P : Project} {g : G} (hwf : WF P g) (cfg : Cfg
           intro v hv
           obtain ⟨x, h1, h2⟩ := hrows v hv
           rw [h1, h2]
-        rw [row_eq _ (hwf.prods u hu _ (mem_prods_of_mem_zipIdx hpi)), stateOf_nv, hfresh pi hpi,
+        rw [row_eq _ (hwf.prods u hu _ (mem_prods_of_mem_zipIdx hpi)), cr_stateOf_nv, hfresh pi hpi,
           row_eq _ (tv_mem_neighbours g u.id), stateOf_tv P _ u.id u (hwf.find u hu)]
         congr 2
         apply List.map_congr_left
         intro d hd
-        rw [row_eq _ (hwf.deps u hu d hd), stateOf_nv]
+        rw [row_eq _ (hwf.deps u hu d hd), cr_stateOf_nv]
       · have hid : u.id ≠ spec.id := fun hid => heq (wf_id_inj hwf hu hspec hid)
         exact RowsConsistent.congr (fun x => by rw [updateStates_other _ _ _ _ _ _ _ hid, hdb]) (hrc u hu)
   all_goals (right; simp only [processReport]; rw [hdb]; exact hrc)
@@ -782,11 +782,11 @@ theorem rowsMatch_after_protocol (F : BodyFn) (P : Project) (g : G) (cfg : Cfg) 
     simp only [hr, processReport, recordStates, hdry, Bool.false_eq_true, if_false, hok, if_true]
   rw [hw]
   intro v hv
-  obtain ⟨x, h1, h2⟩ := (updateStates_ok P g spec.id (neighbours g spec.id) _ hok).1 v hv
+  obtain ⟨x, h1, h2⟩ := (cr_updateStates_ok P g spec.id (neighbours g spec.id) _ hok).1 v hv
   refine ⟨x, ?_, h2⟩
   rw [← h1]
   unfold stateOf
-  rw [updateStates_fs]
+  rw [cr_updateStates_fs]
 
 /-- Steps that leave the neighbourhood of `t` alone: writes to files that are neither a neighbour node of `t` nor `t`'s
 module, and row commits of other tasks. -/
@@ -806,9 +806,9 @@ theorem stateOf_write_avoid (P : Project) (g : G) (t : Nat) (w : World) (n c : N
     rw [h2]
     cases hf : Project.find? P t with
     | none => rfl
-    | some spec => exact lookup_insert_ne _ _ _ _ (h.2 spec hf)
+    | some spec => exact cr_lookup_insert_ne _ _ _ _ (h.2 spec hf)
   · simp only [hT, Bool.false_eq_true, if_false]
-    apply lookup_insert_ne
+    apply cr_lookup_insert_ne
     intro heq
     apply h.1
     have : v = nv n := by
@@ -839,7 +839,7 @@ theorem rowsMatch_frame (P : Project) (g : G) (t : Nat) (hT : ∀ v ∈ neighbou
     | row u y z =>
       refine ⟨x, h1, ?_⟩
       simp only [applyStep]
-      rw [lookup_insert_ne _ _ _ _ (by intro heq; exact tv_ne_of_ne hs (by simpa using (congrArg Prod.fst heq).symm))]
+      rw [cr_lookup_insert_ne _ _ _ _ (by intro heq; exact tv_ne_of_ne hs (by simpa using (congrArg Prod.fst heq).symm))]
       exact h2
 
 end Engine
